@@ -99,6 +99,13 @@ BUILT: dict[str, dict[str, str]] = {
         note="Built-in samplers; faults injected into after_trial only; n_jobs<=3 free-running threads (no schedule control here: C03/C04 own that).",
         ref="DESIGN.md 3/C02",
     ),
+    "C20": dict(
+        technique="property-based testing (Hypothesis): generated read/write sequences issued by two persistent threads over every object-returning getter and every writer of the Study and storage APIs on seven storage configurations; pickle-at-read vs pickle-after-every-later-write byte comparison; poisoning of deep copies",
+        category="exploration",
+        text="Generated-history search over the getter x later-writer x backend product (the coverage matrix is in the evidence): every handed-out object must stay byte-identical under all later writes, and mutating deep-copied results must never show up in later reads.",
+        note="Storage-level study-attribute dictionaries of the in-memory/journal storages are out of scope (the statement names dictionaries obtained from a study); thread interleavings inside a call are C03's subject.",
+        ref="DESIGN.md 3/C20",
+    ),
 }
 
 NOT_YET: dict[str, str] = {}
